@@ -406,10 +406,11 @@ func (l *Lowerer) invClauses(ls *LoopSpec, hidden map[string]envEntry, kind stri
 		t := l.specTerm(c, hidden)
 		l.specPos = savedPos
 		lbl := fmt.Sprintf("loop%d", ord)
-		if c.Label != "" {
-			lbl += "." + c.Label
+		if tg := clauseTag(c); tg != "" {
+			lbl += "." + tg
 		}
 		l.assertOb(kind, lbl, c.Src, node, t, clausePropsOr(l.fr, c, l.curProps))
+		l.tagLastOb(clauseTag(c), l.clauseUses(c)...)
 	}
 }
 
@@ -447,7 +448,33 @@ func (l *Lowerer) invAssume(ls *LoopSpec, hidden map[string]envEntry) {
 		return
 	}
 	for _, c := range ls.Invs {
-		l.assume(l.specTerm(c, hidden))
+		l.assumeTagged(l.specTerm(c, hidden), clauseTag(c))
+	}
+}
+
+// clauseTag: the clause family of an invariant: its label, or the label of the monitor-invariant clause it restates.
+func clauseTag(c *Clause) string {
+	if c.Label != "" {
+		return c.Label
+	}
+	if ce, ok := ast.Unparen(c.Expr).(*ast.CallExpr); ok && len(ce.Args) == 2 {
+		if id, ok := ce.Fun.(*ast.Ident); ok && id.Name == "lockinv" {
+			if lab, ok := ce.Args[1].(*ast.Ident); ok {
+				return lab.Name
+			}
+		}
+	}
+	return ""
+}
+
+func (l *Lowerer) assumeTagged(t *Term, tag string) {
+	if l.cur == nil {
+		return
+	}
+	n := len(l.cur.Stmts)
+	l.assume(t)
+	if tag != "" && len(l.cur.Stmts) == n+1 {
+		l.cur.Stmts[n].Tag = tag
 	}
 }
 
@@ -757,6 +784,10 @@ func (l *Lowerer) rangeStmt(x *ast.RangeStmt, label string) {
 		}
 		hidden := map[string]envEntry{"$i": {iv, types.Typ[types.Int]}, "$n": {n, types.Typ[types.Int]}, "$s": {sv, xt}}
 		head, post, exit, li, ord, ls := l.beginLoop(label, nil)
+		// $i<ordinal>: the index of this loop, also visible in the specifications of nested loops
+		outerIdx := map[string]envEntry{fmt.Sprintf("$i%d", ord): {iv, types.Typ[types.Int]}}
+		l.pushEnv(outerIdx)
+		defer l.popEnv()
 		l.invClauses(ls, hidden, "inv-entry", ord, x)
 		l.jump(head)
 		l.cur = head
@@ -1189,10 +1220,11 @@ func (l *Lowerer) invClausesNamed(ls *LoopSpec, kind, label string, node ast.Nod
 		t := l.specTerm(c, nil)
 		l.specPos = savedPos
 		lbl := "loop." + label
-		if c.Label != "" {
-			lbl += "." + c.Label
+		if tg := clauseTag(c); tg != "" {
+			lbl += "." + tg
 		}
 		l.assertOb(kind, lbl, c.Src, node, t, clausePropsOr(l.fr, c, l.curProps))
+		l.tagLastOb(clauseTag(c), l.clauseUses(c)...)
 	}
 }
 
@@ -1694,6 +1726,8 @@ func (l *Lowerer) lockOp(lock *Term, acquire bool, node ast.Node) {
 		return
 	}
 	l.assign(hv.Name, hv.Sort, Store(hv, lock, tTrue))
+	l.f.declare("$acquired", "Bool")
+	l.assign("$acquired", "Bool", tTrue)
 	if strings.HasPrefix(lock.Op, "addr.") && len(lock.Args) == 1 {
 		key := strings.TrimPrefix(lock.Op, "addr.")
 		if fields, ok := l.p.guardedBy[key]; ok {
@@ -1741,8 +1775,49 @@ func (l *Lowerer) lockOp(lock *Term, acquire bool, node ast.Node) {
 			l.note("A-conc: fields guarded by " + key + " are havocked when the lock is acquired; contracts speak about the critical section (acq(...) = state at acquisition)")
 		}
 	}
+	l.lockInvariant(lock, true, node)
+	if l.topCt != nil && l.fr != nil && l.fr.parent == nil {
+		for _, c := range l.topCt.AcqAssumes {
+			l.assume(l.specTerm(c, nil))
+			l.note("assumed at lock acquisition: " + c.Src)
+		}
+	}
 	if l.cur != nil {
 		l.acqPoints = append(l.acqPoints, acqPoint{l.cur, len(l.cur.Stmts)})
+	}
+}
+
+// lockInvariant assumes (at acquisition) or proves (at release of the write lock) the monitor invariant
+// declared for the lock.
+func (l *Lowerer) lockInvariant(lock *Term, assume bool, node ast.Node) {
+	if lock == nil || !strings.HasPrefix(lock.Op, "addr.") || len(lock.Args) != 1 || l.cur == nil {
+		return
+	}
+	key := strings.TrimPrefix(lock.Op, "addr.")
+	invs := l.p.lockInvs[key]
+	if len(invs) == 0 {
+		return
+	}
+	owner := key[:strings.LastIndex(key, ".")]
+	ot := l.p.namedType(owner)
+	if ot == nil {
+		return
+	}
+	for _, li := range invs {
+		env := map[string]envEntry{li.Self: {lock.Args[0], types.NewPointer(ot)}}
+		savedSpec, savedOld, savedGuard := l.spec, l.oldFn, l.guard
+		l.spec = true
+		l.guard = nil
+		l.pushEnv(env)
+		t, _ := l.tr(li.C.Expr)
+		l.popEnv()
+		l.spec, l.oldFn, l.guard = savedSpec, savedOld, savedGuard
+		if assume {
+			l.assumeTagged(t, li.C.Label)
+		} else {
+			l.assertOb("lock-inv", li.C.Label, li.C.Src, node, t, li.C.Props)
+			l.tagLastOb(li.C.Label, li.C.Uses...)
+		}
 	}
 }
 
@@ -1757,4 +1832,35 @@ func chanSentVar(t types.Type) string {
 		}
 	}
 	return "F.$chan.sent." + name
+}
+
+// tagLastOb records the clause family of the obligation emitted last.
+func (l *Lowerer) tagLastOb(tag string, uses ...string) {
+	if tag == "" || l.cur == nil || len(l.cur.Stmts) == 0 {
+		return
+	}
+	if st := l.cur.Stmts[len(l.cur.Stmts)-1]; st.Kind == SAssert && st.Ob != nil {
+		st.Ob.Tag = tag
+		st.Ob.Uses = uses
+	}
+}
+
+// clauseUses: the families a clause declares it needs (+name in its label); an invariant that restates a
+// monitor-invariant clause inherits that clause's list.
+func (l *Lowerer) clauseUses(c *Clause) []string {
+	out := append([]string{}, c.Uses...)
+	if ce, ok := ast.Unparen(c.Expr).(*ast.CallExpr); ok && len(ce.Args) == 2 {
+		if id, ok := ce.Fun.(*ast.Ident); ok && id.Name == "lockinv" {
+			if lab, ok := ce.Args[1].(*ast.Ident); ok {
+				for _, invs := range l.p.lockInvs {
+					for _, li := range invs {
+						if li.C.Label == lab.Name {
+							out = append(out, li.C.Uses...)
+						}
+					}
+				}
+			}
+		}
+	}
+	return out
 }
